@@ -55,6 +55,11 @@ def run(ctx, driver):
     import h2x
     h2x.explore(ctx, rec, ID, dict(max_connections=1, callers=3, p_rst=0.5, early_response=False, segment="coarse", init_max_streams=1,
                                    ups=[300, 70000, 200000], auto_credit=False, max_steps=150), 40, 1000, ["C12:wedged", "C07:live-lock"])
+    # HTTP/2 connections that h2 itself gives up (the server sends bytes h2 rejects: no GOAWAY is ever stored) while other callers hold their
+    # responses open and close them afterwards: closing must still give the pool's request entry back
+    h2x.explore(ctx, rec, ID, dict(max_connections=1, callers=4, p_badframe=0.1, badframe_after_hdr=0.3, segment="whole", abandon=True, init_max_streams=10,
+                                   max_steps=150),
+                60, 1200, ["C05:", "C12:wedged", "C12:stream-slot-leaked"])
     import wrapb
     wrapb.run(rec, driver)
     return rec.finish("C05 sweeps + explorer", sweeprun.RULE)
